@@ -23,6 +23,18 @@ class HarnessError(Exception):
     """The machinery itself failed (distinct from a VIOLATION)."""
 
 
+class ImplMisbehaviour(HarnessError):
+    """the implementation did something the driver cannot process at all (an observation that never ends, a child process that
+    dies with an exception ...): reported as a broken correspondence with the offending input, not as a tool failure"""
+    pass
+
+
+class CaseFileError(HarnessError):
+    """a generated case file does not type-check: the implementation produced an observation outside the universe of the model
+    (on the unchanged tree every case file is well-typed), so this is reported as a broken correspondence, not as a tool failure"""
+    pass
+
+
 import signal, contextlib
 
 
@@ -34,7 +46,7 @@ def watchdog(seconds, what):
         return
 
     def onalarm(sig, frm):
-        raise HarnessError(f'watchdog: {what() if callable(what) else what} exceeded {seconds}s')
+        raise ImplMisbehaviour(f'watchdog: {what() if callable(what) else what} exceeded {seconds}s')
     old = signal.signal(signal.SIGALRM, onalarm)
     prev = signal.alarm(seconds)
     try:
@@ -246,7 +258,7 @@ def run_case_files(vfiles, timeout=900):
     [t.join() for t in ths]
     for f, (rc, out) in outs.items():
         if rc:
-            raise HarnessError(f'coqc failed on {f}:\n{out[-3000:]}')
+            raise CaseFileError(f'coqc failed on {f}:\n{out[-3000:]}')
     return {f: out for f, (rc, out) in outs.items()}
 
 
